@@ -89,7 +89,8 @@ fn main() {
                 worker: 0,
                 nworkers: 1,
                 seed: 1,
-                variant: "ref".into(),
+                // the variant decides e.g. which CPU-feature masks are legal in this build
+                variant: arg(&args, "--variant").unwrap_or_else(|| "ref".into()),
             };
             let o = replay_case(&prop, &ctx, ph, &tape);
             if let Some(s) = &o.sample {
